@@ -120,6 +120,22 @@ Proof.
       change (1 =? 1) with true; cbv iota; rewrite IH; reflexivity.
 Qed.
 
+(* the http_body contract of is_end_stream in the Encode direction, against the whole state
+   (staging buffer and inner body): when it answers true - over an inner body that answers true
+   only at its end - NOTHING more is delivered, whatever [buf] holds; and the state machine is
+   the stateless translation used above *)
+Theorem encode_is_end_stream_contract e buf evs :
+  encode_is_end_stream 1 buf evs = true -> drain_encode_st e buf evs = [SNone].
+Proof.
+  unfold encode_is_end_stream, inner_eos. change (1 =? 1) with true. cbv iota.
+  destruct evs; [reflexivity|discriminate].
+Qed.
+Lemma drain_encode_st_eq e buf evs : drain_encode_st e buf evs = drain_encode e evs.
+Proof.
+  induction evs as [|x r IH]; [reflexivity|]. cbn [drain_encode_st drain_encode poll_encode_st].
+  destruct (poll_encode e (answer_of x)); try reflexivity; now rewrite IH.
+Qed.
+
 (* ================= request direction ================= *)
 Lemma drain_none_data n : forall evs, (length evs < n)%nat -> only_data_or_pending evs = true ->
   drain_none_n n evs = map SData (datas evs) ++ [SNone].
